@@ -248,10 +248,10 @@ func (g *c01Gen) route(d int, expr string, v c01Val) (string, []c01Seg) {
 	}
 }
 
-const c01NSources = 22
+const c01NSources = 23
 
 var c01SourceNames = []string{"ctx-var", "dq-literal", "bq-literal", "struct-field", "ptr-struct-field", "nested-struct-field", "map-element", "map-iface-element",
-	"strings-element", "ifaces-element", "helper-string", "helper-iface", "raw()", "html-var", "htmler-var", "helper-html", "reflect-value-of-string", "stringer-var", "named-string-with-String-method", "time-zone-name", "nil-pointer-whose-String-expects-nil", "nil-pointer-whose-HTML-expects-nil"}
+	"strings-element", "ifaces-element", "helper-string", "helper-iface", "raw()", "html-var", "htmler-var", "helper-html", "reflect-value-of-string", "stringer-var", "named-string-with-String-method", "time-zone-name", "nil-pointer-whose-String-expects-nil", "nil-pointer-whose-HTML-expects-nil", "named-string-type-without-methods"}
 
 // source sets up the context for payload p and returns the initial expression.
 func c01Source(k int, p string, ctx *plush.Context) (expr string, v c01Val, ok bool) {
@@ -332,12 +332,18 @@ func c01Source(k int, p string, ctx *plush.Context) (expr string, v c01Val, ok b
 		c01NilText = p
 		ctx.Set("nps", (*c01NilSafe)(nil))
 		return "nps", c01Val{s: p}, true
-	default:
+	case 21:
 		c01NilText = p
 		ctx.Set("nph", (*c01NilSafeHTML)(nil))
 		return "nph", c01Val{s: p, trusted: true}, true
+	default:
+		// type Role string: a string like any other
+		ctx.Set("nrl", c01Role(p))
+		return "nrl", c01Val{s: p}, true
 	}
 }
+
+type c01Role string
 
 // c01NilText is what the nil receivers below print (the workload runs in one goroutine).
 var c01NilText string
